@@ -437,72 +437,173 @@ Proof.
   rewrite Hh, (Hv Hh), Hi, !Z.eqb_refl. reflexivity.
 Qed.
 
+(* ------------------------------------------------------------------ LDS http filters *)
+Lemma parse_lds_term : forall named server fs out, parse_lds named server fs = Some out ->
+  term_ok out = true.
+Proof.
+  intros named server fs out H. unfold parse_lds in H. destruct (negb named); [discriminate|].
+  destruct (flt_loop server fs []) as [ret|]; [|discriminate].
+  destruct (term_ok ret) eqn:E; [|discriminate]. inversion H; subst. exact E.
+Qed.
+
+Lemma term_ok_spec : forall ret, term_ok ret = true ->
+  exists init l, ret = init ++ [l] /\ fst l = 1 /\ forall f, In f init -> fst f <> 1.
+Proof.
+  intros ret H. unfold term_ok in H. destruct (rev ret) as [|l r] eqn:E; [discriminate|].
+  apply andb_true_iff in H. destruct H as [Hl Hr]. apply Z.eqb_eq in Hl.
+  exists (rev r), l. split; [|split; [exact Hl|]].
+  - rewrite <- (rev_involutive ret), E. reflexivity.
+  - intros f Hin. apply in_rev in Hin. rewrite forallb_forall in Hr. specialize (Hr f Hin).
+    apply negb_true_iff in Hr. apply Z.eqb_neq in Hr. exact Hr.
+Qed.
+
+(* every retained filter is registered, supported on this side, and was in the input with a
+   non-empty name; names of retained filters are distinct *)
+Lemma flt_loop_spec : forall server fs seen out, flt_loop server fs seen = Some out ->
+  (forall f, In f out -> flt_supported server (fst f) = true /\ snd f <> 0 /\ ~ In (snd f) seen /\
+     exists o n0, In (fst f, o, n0) fs /\ snd f = u32 n0) /\
+  NoDup (map snd out).
+Proof.
+  intros server. induction fs as [|[[k o] n0] r IH]; intros seen out H; cbn [flt_loop] in H.
+  - inversion H; subst. split; [intros f [] | constructor].
+  - destruct (u32 n0 =? 0) eqn:E0; [discriminate|]. apply Z.eqb_neq in E0.
+    destruct (mem (u32 n0) seen) eqn:Em; [discriminate|]. apply mem_false in Em.
+    assert (Hskip : forall out', flt_loop server r (u32 n0 :: seen) = Some out' ->
+      (forall f, In f out' -> flt_supported server (fst f) = true /\ snd f <> 0 /\ ~ In (snd f) seen /\
+         (snd f <> u32 n0) /\ exists o' n', In (fst f, o', n') ((k, o, n0) :: r) /\ snd f = u32 n') /\
+      NoDup (map snd out')).
+    { intros out' H'. destruct (IH _ _ H') as [Ha Hn]. split; [|exact Hn].
+      intros f Hf. destruct (Ha f Hf) as [H1 [H2 [H3 [o' [n' [H4 H5]]]]]].
+      split; [exact H1|]. split; [exact H2|]. split; [intro Hs; apply H3; right; exact Hs|].
+      split; [intro Hs; apply H3; left; symmetry; exact Hs|].
+      exists o', n'. split; [right; exact H4 | exact H5]. }
+    assert (Hweak : forall out', flt_loop server r (u32 n0 :: seen) = Some out' ->
+      (forall f, In f out' -> flt_supported server (fst f) = true /\ snd f <> 0 /\ ~ In (snd f) seen /\
+         exists o' n', In (fst f, o', n') ((k, o, n0) :: r) /\ snd f = u32 n') /\
+      NoDup (map snd out')).
+    { intros out' H'. destruct (Hskip _ H') as [Ha Hn]. split; [|exact Hn].
+      intros f Hf. destruct (Ha f Hf) as [H1 [H2 [H3 [_ H4]]]]. auto. }
+    destruct (negb (flt_registered k)).
+    { destruct (z2b o); [exact (Hweak _ H) | discriminate]. }
+    destruct (k =? 6); [discriminate|].
+    destruct (negb (flt_supported server k)) eqn:Es.
+    { destruct (z2b o); [exact (Hweak _ H) | discriminate]. }
+    apply negb_false_iff in Es.
+    destruct (flt_loop server r (u32 n0 :: seen)) as [out1|] eqn:Hr; [|discriminate].
+    inversion H; subst out; clear H. destruct (Hskip _ eq_refl) as [Ha Hn]. split.
+    + intros f [Ef | Hf].
+      * subst f. cbn [fst snd]. split; [exact Es|]. split; [exact E0|]. split; [exact Em|].
+        exists o, n0. split; [left; reflexivity | reflexivity].
+      * destruct (Ha f Hf) as [H1 [H2 [H3 [_ H4]]]]. auto.
+    + cbn [map snd]. constructor; [|exact Hn]. intro Hin. apply in_map_iff in Hin.
+      destruct Hin as [f [Hs Hf]]. destruct (Ha f Hf) as [_ [_ [_ [Hne _]]]]. exact (Hne Hs).
+Qed.
+
+Lemma lds_invariants_readable : forall named server fs out, parse_lds named server fs = Some out ->
+  named = true /\
+  (exists init l, out = init ++ [l] /\ fst l = 1 /\ forall f, In f init -> fst f <> 1) /\
+  NoDup (map snd out) /\
+  (forall f, In f out -> flt_supported server (fst f) = true /\ snd f <> 0 /\
+     exists o n0, In (fst f, o, n0) fs /\ snd f = u32 n0).
+Proof.
+  intros named server fs out H. pose proof (parse_lds_term _ _ _ _ H) as Ht.
+  unfold parse_lds in H. destruct named; [|discriminate]. cbn [negb] in H.
+  destruct (flt_loop server fs []) as [ret|] eqn:Hl; [|discriminate].
+  destruct (term_ok ret); [|discriminate]. inversion H; subst ret.
+  destruct (flt_loop_spec _ _ _ _ Hl) as [Ha Hn].
+  split; [reflexivity|]. split; [exact (term_ok_spec _ Ht)|]. split; [exact Hn|].
+  intros f Hf. destruct (Ha f Hf) as [H1 [H2 [_ H4]]]. auto.
+Qed.
+
+(* the input of the seeded fault: every filter optional and unregistered -> rejected *)
+Lemma all_skipped_rejected : forall server fs,
+  Forall (fun f => flt_registered (fst (fst f)) = false /\ z2b (snd (fst f)) = true) fs ->
+  forall named, parse_lds named server fs = None.
+Proof.
+  intros server fs H named. unfold parse_lds. destruct (negb named); [reflexivity|].
+  assert (G : forall seen, flt_loop server fs seen = None \/ flt_loop server fs seen = Some []).
+  { induction H as [|[[k o] n0] r [Hk Ho] Hr IH]; intro seen; cbn [flt_loop]; [right; reflexivity|].
+    cbn [fst snd] in Hk, Ho. destruct (u32 n0 =? 0); [left; reflexivity|].
+    destruct (mem (u32 n0) seen); [left; reflexivity|]. rewrite Hk, Ho. cbn [negb]. apply IH. }
+  destruct (G []) as [E | E]; rewrite E; reflexivity.
+Qed.
+
 (* ------------------------------------------------------------------ the word stream *)
 Definition fr (ws : list word) (s : dst) : dst := fold_right push s ws.
 
 Lemma fr_app : forall a b s, fr (a ++ b) s = fr a (fr b s).
 Proof. intros. unfold fr. apply fold_right_app. Qed.
 
-Lemma fr_eps : forall es e l d h w r o dn,
-  fr (map enc_ep es) (mk_pend e l d h w r, o, dn) = (mk_pend (es ++ e) l d h w r, o, dn).
+Lemma fr_eps : forall es e l d h w r fl o dn,
+  fr (map enc_ep es) (mk_pend e l d h w r fl, o, dn) = (mk_pend (es ++ e) l d h w r fl, o, dn).
 Proof.
   induction es as [|x es IH]; intros; [reflexivity|].
-  cbn [map fr fold_right]. fold (fr (map enc_ep es) (mk_pend e l d h w r, o, dn)). rewrite IH.
+  cbn [map fr fold_right]. fold (fr (map enc_ep es) (mk_pend e l d h w r fl, o, dn)). rewrite IH.
   destruct x as [hw wt ad ex]. unfold enc_ep. cbn. rewrite z2b_b2z. reflexivity.
 Qed.
 
-Lemma fr_loc : forall x l d h w r o dn,
-  fr (enc_loc x) (mk_pend [] l d h w r, o, dn) = (mk_pend [] (x :: l) d h w r, o, dn).
+Lemma fr_loc : forall x l d h w r fl o dn,
+  fr (enc_loc x) (mk_pend [] l d h w r fl, o, dn) = (mk_pend [] (x :: l) d h w r fl, o, dn).
 Proof.
-  intros. unfold enc_loc. cbn [fr fold_right]. fold (fr (map enc_ep (l_eps x)) (mk_pend [] l d h w r, o, dn)).
+  intros. unfold enc_loc. cbn [fr fold_right]. fold (fr (map enc_ep (l_eps x)) (mk_pend [] l d h w r fl, o, dn)).
   rewrite fr_eps. destruct x as [hi id wt pr eps]. cbn. rewrite z2b_b2z, app_nil_r. reflexivity.
 Qed.
 
-Lemma fr_locs : forall ls l d h w r o dn,
-  fr (flat_map enc_loc ls) (mk_pend [] l d h w r, o, dn) = (mk_pend [] (ls ++ l) d h w r, o, dn).
+Lemma fr_locs : forall ls l d h w r fl o dn,
+  fr (flat_map enc_loc ls) (mk_pend [] l d h w r fl, o, dn) = (mk_pend [] (ls ++ l) d h w r fl, o, dn).
 Proof.
   induction ls as [|x ls IH]; intros; [reflexivity|].
   cbn [flat_map]. rewrite fr_app, IH, fr_loc. reflexivity.
 Qed.
 
-Lemma fr_drops : forall ds e l d h w r o dn,
-  fr (map (fun nd : Z * Z => [3; fst nd; snd nd]) ds) (mk_pend e l d h w r, o, dn)
-  = (mk_pend e l (ds ++ d) h w r, o, dn).
+Lemma fr_drops : forall ds e l d h w r fl o dn,
+  fr (map (fun nd : Z * Z => [3; fst nd; snd nd]) ds) (mk_pend e l d h w r fl, o, dn)
+  = (mk_pend e l (ds ++ d) h w r fl, o, dn).
 Proof.
   induction ds as [|[n x] ds IH]; intros; [reflexivity|].
-  cbn [map fr fold_right]. fold (fr (map (fun nd : Z * Z => [3; fst nd; snd nd]) ds) (mk_pend e l d h w r, o, dn)).
+  cbn [map fr fold_right]. fold (fr (map (fun nd : Z * Z => [3; fst nd; snd nd]) ds) (mk_pend e l d h w r fl, o, dn)).
   rewrite IH. reflexivity.
 Qed.
 
-Lemma fr_hdrs : forall hs e l d h w r o dn,
-  fr (map (fun k => [5; k]) hs) (mk_pend e l d h w r, o, dn) = (mk_pend e l d (hs ++ h) w r, o, dn).
+Lemma fr_hdrs : forall hs e l d h w r fl o dn,
+  fr (map (fun k => [5; k]) hs) (mk_pend e l d h w r fl, o, dn) = (mk_pend e l d (hs ++ h) w r fl, o, dn).
 Proof.
   induction hs as [|k hs IH]; intros; [reflexivity|].
-  cbn [map fr fold_right]. fold (fr (map (fun k => [5; k]) hs) (mk_pend e l d h w r, o, dn)).
+  cbn [map fr fold_right]. fold (fr (map (fun k => [5; k]) hs) (mk_pend e l d h w r fl, o, dn)).
   rewrite IH. reflexivity.
 Qed.
 
-Lemma fr_wcs : forall ws e l d h w r o dn,
-  fr (map (fun x => [6; x]) ws) (mk_pend e l d h w r, o, dn) = (mk_pend e l d h (ws ++ w) r, o, dn).
+Lemma fr_wcs : forall ws e l d h w r fl o dn,
+  fr (map (fun x => [6; x]) ws) (mk_pend e l d h w r fl, o, dn) = (mk_pend e l d h (ws ++ w) r fl, o, dn).
 Proof.
   induction ws as [|k ws IH]; intros; [reflexivity|].
-  cbn [map fr fold_right]. fold (fr (map (fun x => [6; x]) ws) (mk_pend e l d h w r, o, dn)).
+  cbn [map fr fold_right]. fold (fr (map (fun x => [6; x]) ws) (mk_pend e l d h w r fl, o, dn)).
   rewrite IH. reflexivity.
 Qed.
 
-Lemma fr_route : forall x e l d r o dn,
-  fr (enc_route x) (mk_pend e l d [] [] r, o, dn) = (mk_pend e l d [] [] (x :: r), o, dn).
+Lemma fr_route : forall x e l d r fl o dn,
+  fr (enc_route x) (mk_pend e l d [] [] r fl, o, dn) = (mk_pend e l d [] [] (x :: r) fl, o, dn).
 Proof.
   intros. unfold enc_route. cbn [fr fold_right].
-  fold (fr (map (fun k => [5; k]) (r_hdrs x) ++ map (fun y => [6; y]) (r_wcs x)) (mk_pend e l d [] [] r, o, dn)).
+  fold (fr (map (fun k => [5; k]) (r_hdrs x) ++ map (fun y => [6; y]) (r_wcs x)) (mk_pend e l d [] [] r fl, o, dn)).
   rewrite fr_app, fr_wcs, fr_hdrs. destruct x. cbn. rewrite !z2b_b2z, !app_nil_r. reflexivity.
 Qed.
 
-Lemma fr_routes : forall rs e l d r o dn,
-  fr (flat_map enc_route rs) (mk_pend e l d [] [] r, o, dn) = (mk_pend e l d [] [] (rs ++ r), o, dn).
+Lemma fr_routes : forall rs e l d r fl o dn,
+  fr (flat_map enc_route rs) (mk_pend e l d [] [] r fl, o, dn) = (mk_pend e l d [] [] (rs ++ r) fl, o, dn).
 Proof.
   induction rs as [|x rs IH]; intros; [reflexivity|].
   cbn [flat_map]. rewrite fr_app, IH, fr_route. reflexivity.
+Qed.
+
+Lemma fr_flts : forall fs e l d h w r fl o dn,
+  fr (map (fun x : Z * Z * Z => [7; fst (fst x); snd (fst x); snd x]) fs) (mk_pend e l d h w r fl, o, dn)
+  = (mk_pend e l d h w r (fs ++ fl), o, dn).
+Proof.
+  induction fs as [|[[k op] n] fs IH]; intros; [reflexivity|].
+  cbn [map fr fold_right].
+  fold (fr (map (fun x : Z * Z * Z => [7; fst (fst x); snd (fst x); snd x]) fs) (mk_pend e l d h w r fl, o, dn)).
+  rewrite IH. reflexivity.
 Qed.
 
 Lemma reqs_of_enc : forall qs, reqs_of (flat_map enc_req qs) = qs.
@@ -510,14 +611,18 @@ Proof.
   unfold reqs_of. induction qs as [|q qs IH]; [reflexivity|].
   cbn [flat_map]. fold (fr (enc_req q ++ flat_map enc_req qs) dst0). rewrite fr_app.
   unfold fr at 2. destruct (fold_right push dst0 (flat_map enc_req qs)) as [[p o] dn] eqn:Hs.
-  destruct q as [c | f rs | w]; cbn [enc_req].
+  destruct q as [c | f rs | f sv fs | w]; cbn [enc_req].
   - rewrite !fr_app. destruct c as [f ds ls]. cbn [c_named c_drops c_locs].
-    change (fr [[9; b2z f]] (p, o, dn)) with (pend0, Some (9, z2b (b2z f)), close (p, o, dn)).
+    change (fr [[9; b2z f]] (p, o, dn)) with (pend0, Some (9, z2b (b2z f), false), close (p, o, dn)).
     rewrite IH, z2b_b2z. unfold pend0. rewrite fr_locs, fr_drops. cbn. rewrite !app_nil_r. reflexivity.
   - rewrite fr_app.
-    change (fr [[10; b2z f]] (p, o, dn)) with (pend0, Some (10, z2b (b2z f)), close (p, o, dn)).
+    change (fr [[10; b2z f]] (p, o, dn)) with (pend0, Some (10, z2b (b2z f), false), close (p, o, dn)).
     rewrite IH, z2b_b2z. unfold pend0. rewrite fr_routes. cbn. rewrite app_nil_r. reflexivity.
-  - change (fr [20 :: w] (p, o, dn)) with (pend0, @None (Z * bool), RRaw w :: close (p, o, dn)).
+  - rewrite fr_app.
+    change (fr [[11; b2z f; b2z sv]] (p, o, dn))
+      with (pend0, Some (11, z2b (b2z f), z2b (b2z sv)), close (p, o, dn)).
+    rewrite IH, !z2b_b2z. unfold pend0. rewrite fr_flts. cbn. rewrite app_nil_r. reflexivity.
+  - change (fr [20 :: w] (p, o, dn)) with (pend0, @None (Z * bool * bool), RRaw w :: close (p, o, dn)).
     rewrite IH. reflexivity.
 Qed.
 
@@ -526,7 +631,7 @@ Definition good (c : Z * Z * bool) : bool := is_finding (fst (fst c)) || snd c.
 
 Lemma clause_req_model : forall dual i q, forallb good (clause_req i q (res_of_req dual q)) = true.
 Proof.
-  intros dual i q. destruct q as [c | f rs | w]; cbn [res_of_req].
+  intros dual i q. destruct q as [c | f rs | f sv fs | w]; cbn [res_of_req].
   - destruct (parse_eds dual c) as [u|] eqn:Hp; cbn [clause_req].
     + destruct (eds_accept_bool _ _ _ Hp) as [Hn [H2 [H3 [H4 H5]]]]. rewrite Hn.
       cbn [forallb]. unfold good. cbn [fst snd]. rewrite H2, H3, H4, H5, !orb_true_r. reflexivity.
@@ -535,6 +640,10 @@ Proof.
     + destruct (rds_accept_bool _ _ _ Hp) as [H6 [H7 [H8 H9]]].
       cbn [forallb]. unfold good. cbn [fst snd]. rewrite H6, H7, H8, H9, !orb_true_r. reflexivity.
     + reflexivity.
+  - destruct (parse_lds f sv fs) as [out|] eqn:Hp; cbn [clause_req]; [|reflexivity].
+    cbn [forallb]. unfold good. cbn [fst snd]. rewrite map_map. cbn [fst snd].
+    rewrite (map_ext _ (fun x => x)) by (intros [k n]; reflexivity). rewrite map_id.
+    rewrite (parse_lds_term _ _ _ _ Hp), orb_true_r. reflexivity.
   - reflexivity.
 Qed.
 
@@ -547,7 +656,7 @@ Qed.
 
 Lemma finding_req_good : forall i q o, forallb good (finding_req i q o) = true.
 Proof.
-  intros i q o. destruct q as [c | f rs | w]; destruct o as [c' | f' os | w']; try reflexivity.
+  intros i q o. destruct q as [c | f rs | f sv fs | w]; destruct o as [c' | f' os | f' sv' fs' | w']; try reflexivity.
   cbn [finding_req]. destruct f'; reflexivity.
 Qed.
 
